@@ -91,6 +91,16 @@ impl Expr {
 // ---------------------------------------------------------------------------------------------
 // plain f64 evaluation (same operations the library applies to real parts)
 
+/// the float inverse normal cdf panics outside [0, 1] (and on NaN); such points are outside the
+/// domain and the caller skips them when it sees the NaN
+pub fn safe_inv_norm_cdf(p: f64) -> f64 {
+    if (0.0..=1.0).contains(&p) {
+        MathFuncs::inv_norm_cdf(&p)
+    } else {
+        f64::NAN
+    }
+}
+
 pub fn eval_f64(e: &Expr, x: &[f64]) -> f64 {
     match e {
         Expr::Var(i) => x[*i],
@@ -100,7 +110,7 @@ pub fn eval_f64(e: &Expr, x: &[f64]) -> f64 {
         Expr::Exp(a) => eval_f64(a, x).exp(),
         Expr::Log(a) => eval_f64(a, x).ln(),
         Expr::NormCdf(a) => MathFuncs::norm_cdf(&eval_f64(a, x)),
-        Expr::InvNormCdf(a) => MathFuncs::inv_norm_cdf(&eval_f64(a, x)),
+        Expr::InvNormCdf(a) => safe_inv_norm_cdf(eval_f64(a, x)),
         Expr::Pow(a, p, _) => eval_f64(a, x).powf(p.0),
         Expr::Bin(op, _, l, r) => {
             let (a, b) = (eval_f64(l, x), eval_f64(r, x));
@@ -459,7 +469,7 @@ pub fn eval_jet(e: &Expr, x: &[f64]) -> Jet {
         }
         Expr::InvNormCdf(a) => {
             let u = eval_jet(a, x);
-            let q = MathFuncs::inv_norm_cdf(&u.v);
+            let q = safe_inv_norm_cdf(u.v);
             let p = phi(q);
             Jet::unary(&u, q, 1.0 / p, q / (p * p), (1.0 + 2.0 * q * q) / (p * p * p))
         }
